@@ -26,6 +26,18 @@ impl Clone for SubMsg {
     #[verifier::external_body]
     fn clone(&self) -> (r: SubMsg) ensures r == *self, { unimplemented!() }
 }
+// cosmwasm_std constructors (T2): `SubMsg::new` is fire-and-forget (id 0 = UNUSED_MSG_ID, ReplyOn::Never); the `reply_*` forms carry the id
+pub open spec fn plain_submsg(m: CosmosMsg) -> SubMsg { SubMsg { msg: m, gas_limit: None, id: 0, reply_on: ReplyOn::Never } }
+impl SubMsg {
+    pub fn new(msg: CosmosMsg) -> (r: SubMsg) ensures r == plain_submsg(msg),
+    { SubMsg { msg: msg, gas_limit: None, id: 0, reply_on: ReplyOn::Never } }
+    pub fn reply_on_success(msg: CosmosMsg, id: u64) -> (r: SubMsg) ensures r == (SubMsg { msg: msg, gas_limit: None, id: id, reply_on: ReplyOn::Success }),
+    { SubMsg { msg: msg, gas_limit: None, id: id, reply_on: ReplyOn::Success } }
+    pub fn reply_on_error(msg: CosmosMsg, id: u64) -> (r: SubMsg) ensures r == (SubMsg { msg: msg, gas_limit: None, id: id, reply_on: ReplyOn::Error }),
+    { SubMsg { msg: msg, gas_limit: None, id: id, reply_on: ReplyOn::Error } }
+    pub fn reply_always(msg: CosmosMsg, id: u64) -> (r: SubMsg) ensures r == (SubMsg { msg: msg, gas_limit: None, id: id, reply_on: ReplyOn::Always }),
+    { SubMsg { msg: msg, gas_limit: None, id: id, reply_on: ReplyOn::Always } }
+}
 
 pub trait ToPayload {
     spec fn payload(&self) -> Payload;
@@ -91,6 +103,21 @@ impl Response {
     pub fn add_submessage(self, msg: SubMsg) -> (r: Response)
         ensures
             r.messages@ == self.messages@.push(msg),
+            r.attributes@ == self.attributes@,
+    { unimplemented!() }
+
+    // add_message(s): each message is wrapped by SubMsg::new (no reply)
+    #[verifier::external_body]
+    pub fn add_message(self, msg: CosmosMsg) -> (r: Response)
+        ensures
+            r.messages@ == self.messages@.push(plain_submsg(msg)),
+            r.attributes@ == self.attributes@,
+    { unimplemented!() }
+
+    #[verifier::external_body]
+    pub fn add_messages(self, msgs: Vec<CosmosMsg>) -> (r: Response)
+        ensures
+            r.messages@ == self.messages@ + Seq::new(msgs@.len(), |i: int| plain_submsg(msgs@[i])),
             r.attributes@ == self.attributes@,
     { unimplemented!() }
 
